@@ -66,6 +66,9 @@ func c06Configs(thorough bool) (cfgs []poolCfg, bounds []int) {
 			}
 			add(poolCfg{Min: 1, Max: 2, EM: em, Method: m.Name, Clients: [][]reqSpec{{with, without, pn, without}}}, bb)
 			add(poolCfg{Min: 1, Max: 2, EM: em, Method: m.Name, Clients: [][]reqSpec{{with}, {without}}}, bb)
+			// a request with nothing to run (empty name list / empty DAG) after an ordinary one on the same instance
+			// (one deviation from the default schedule: the hand-back goroutine of the earlier request lands in between)
+			add(poolCfg{Min: 1, Max: 2, EM: em, Method: m.Name, Clients: [][]reqSpec{{with, reqSpec{Mode: modeEmpty}, without, reqSpec{Mode: modeEmpty, Other: true}}}}, 1)
 		}
 	}
 	return
@@ -78,7 +81,7 @@ func init() {
 		BudgetQuick: 170 * time.Second,
 		BudgetThor:  30 * time.Minute,
 		Kind:        "schedules",
-		Rule: "pool (1,2) [thorough also (2,3)]: 3 clients x 1 request and 2 clients x 2 requests (instances reused), some requests injecting an extra key `other`, through 4 sequential-model and 4 goroutine-spawning execute methods, every schedule with <=2 (thorough 3) deviations from the default scheduler (delay bounding); plus all 24 execute methods x applicable execution models with sequential reuse and two overlapping requests; " +
+		Rule: "pool (1,2) [thorough also (2,3)]: 3 clients x 1 request and 2 clients x 2 requests (instances reused), some requests injecting an extra key `other`, through 4 sequential-model and 4 goroutine-spawning execute methods, every schedule with <=2 (thorough 3) deviations from the default scheduler (delay bounding); plus all 24 execute methods x applicable execution models with sequential reuse (incl. requests with an empty name list / empty DAG after ordinary ones) and two overlapping requests; " +
 			"after quiescence a deterministic probe phase sends requests that inject nothing to every instance. Oracle: every observer call inside a rule sees only its own request's ids/keys, the host response object and every result-map value are computed from the own request, a handed-back result map is never modified later, probes find no data of earlier requests",
 		Assume:  []string{"injected functions terminate", "sequentially consistent memory (races are C19's subject)", "the host does not share objects between requests on purpose"},
 		Run:     func(c *hx.Ctx) { cfgs, b := c06Configs(c.Thorough()); runPoolConfigs(c, "C06", cfgs, b) },
